@@ -22,7 +22,8 @@ from catalogue import mps_factory as F
 PROPERTY = 'C07'
 LEVEL = 'model_checking'
 BOUNDS = {
-    'quick': 'L<=3 (infinite: unit cell 2, indices in [-L, 3L)), chi<=2 (one chi=3 bond), SpinHalfSite(None,Sz), FermionSite(None,N); '
+    'quick': 'L<=3 (infinite: unit cell 2, indices in [-L, 3L)), chi<=2 (one chi=3 bond), SpinHalfSite(None,Sz,parity), FermionSite(None,N), '
+             'SpinHalfFermionSite(N,Sz) (product states: its perm [2,0,3,1] is not an involution); '
              'stored forms A,B,C,G,Th and mixed; requested forms A,B,C,G,Th,None and tuples with None entries; conversion sequences of length 2; '
              'product states L<=3 on MPS and on Chain/Ladder lattices',
     'thorough': 'L=4 chi 1,2,3,2,1, SpinHalfFermionSite, unit cell 3, conversion sequences of length 3, Ladder 2x2 product states',
@@ -85,10 +86,22 @@ def product_case(ctx, kind, L, bc, mode, form='B'):
     elif mode == 'labels':
         idx = []
         p_state = []
+        amps = {}
         for i in range(L):
             names = sorted(sites[i].state_labels, key=lambda k: (sites[i].state_labels[k], k))
-            how = ctx.choice(f'how{i}', 2)
-            if how == 0:
+            how = ctx.choice(f'how{i}', 3)
+            if how == 2:
+                # amplitude vector on a conserving site: a single non-zero entry  amp * e_k  given "as if conserve=None"
+                # (permute=True); amp = +-b with a symbolic b > 1 (well above the charge-detection cutoff)
+                k = ctx.choice(f'vec{i}', sites[i].dim)
+                b = ctx.real(f'amp{i}', pos=True)
+                ctx.assume(b > 1)
+                amps[i] = b if ctx.choice(f'sign{i}', 2) == 0 else -b
+                v = np.zeros(sites[i].dim, dtype=dt)
+                v[k] = amps[i]
+                p_state.append(v)
+                idx.append([int(x) for x in sites[i].perm].index(k))
+            elif how == 0:
                 nm = names[ctx.choice(f'lab{i}', len(names))]
                 p_state.append(nm)
                 idx.append(sites[i].state_labels[nm])
@@ -98,11 +111,11 @@ def product_case(ctx, kind, L, bc, mode, form='B'):
                 # documented (permute=True): an int is the index "as if conserve=None"; the site stores state k at the
                 # position j with perm[j] == k
                 idx.append([int(x) for x in sites[i].perm].index(k))
-        psi = MPS.from_product_state(sites, p_state, bc=bc, form=form, unit_cell_width=L)
+        psi = MPS.from_product_state(sites, p_state, bc=bc, form=form, unit_cell_width=L, dtype=dt if amps else np.float64)
         ref = []
         for i in range(L):
-            e = np.zeros(sites[i].dim)
-            e[idx[i]] = 1.
+            e = np.zeros(sites[i].dim, dtype=dt if amps else float)
+            e[idx[i]] = amps.get(i, 1.)
             ref.append(e)
     else:
         raise ValueError(mode)
@@ -113,7 +126,7 @@ def product_case(ctx, kind, L, bc, mode, form='B'):
     for v in ref[1:]:
         want = np.multiply.outer(want, v)
     ctx.prove_eq(got, want, 'contracted MPS == product vector')
-    ctx.prove(psi.norm == 1., 'norm attribute of a product state')
+    ctx.prove(psi.norm == 1., 'norm attribute of a product state (from_product_state does not normalise)')
     if bc == 'finite' and sites[0].leg.chinfo.qnumber > 0 and mode == 'labels':
         q = np.sum([sites[i].leg.to_qflat()[idx[i]] for i in range(L)], axis=0)
         ctx.prove_eq(psi.get_total_charge(True), sites[0].leg.chinfo.make_valid(q), 'get_total_charge(only_physical_legs) == sum of the local charges')
@@ -466,9 +479,9 @@ def CASES(tier, seed):
                 if kind == 'shf' and L > 2:
                     continue
                 add(f'product.vectors[{kind},L={L},{bc}]', 'product_case', kind=kind, L=L, bc=bc, mode='vectors')
-    for kind in ('spinSz', 'fermN', 'spinP') + (('shfNSz', ) if thorough else ()):
+    for kind in ('spinSz', 'fermN', 'spinP', 'shfNSz'):  # shfNSz: site.perm = [2,0,3,1] is not an involution
         for bc in ('finite', 'infinite', 'segment'):
-            L = 3 if kind != 'shfNSz' else 2
+            L = 3 if (kind != 'shfNSz' and (bc == 'finite' or thorough)) else 2  # (labels + indices + signed unit vectors)^L paths
             add(f'product.labels[{kind},L={L},{bc}]', 'product_case', kind=kind, L=L, bc=bc, mode='labels', form='B' if bc != 'segment' else 'A')
     for lat_kind, Lx in (('Chain', 3), ('Ladder', 2)) + ((('Ladder', 3), ) if thorough else ()):
         for bc in ('finite', 'infinite'):
